@@ -51,6 +51,7 @@ var allScopes = []string{
 	tmplgen.ScopeCSSCommentQuote, tmplgen.ScopeEventAttr, tmplgen.ScopeStyleAttr, tmplgen.ScopeTagSpace, tmplgen.ScopeDoubleEscaped,
 	tmplgen.ScopeEscapedBackslash, tmplgen.ScopeUnquotedEmpty, tmplgen.ScopeJSCommentHole, tmplgen.ScopeMinusAdjacent,
 	tmplgen.ScopeScriptTypeJS, tmplgen.ScopeMDBareURL, tmplgen.ScopeMDAutolink, tmplgen.ScopeMDURLMacro, tmplgen.ScopeMDEmphasisAdj, tmplgen.ScopeCommentQuote, tmplgen.ScopeImportMap, tmplgen.ScopeTypedMacroTag, tmplgen.ScopeRawTextTagQuote,
+	tmplgen.ScopeRawLabelled, tmplgen.ScopeTagNameWhole, tmplgen.ScopeDupType, tmplgen.ScopeRegexHole, tmplgen.ScopeMDCodeSpan, tmplgen.ScopeBytesHTML,
 }
 
 func (prop) Drive(d *core.Driver) error {
